@@ -86,13 +86,14 @@ def run(tier):
     sd = os.path.join(SPECS, "flat")
     exe = targets.get("h_drv")
     gen, gres = cvtcases.generate()
-    # SOS membership given by suffixes is not among the things C07's statement lists
-    # (bounds, integrality, algebraic and logical constraints): those models are left to C01
-    gen = [g_ for g_ in gen if g_["kind"] != "sos"]
     cfgs, acc = cvtcases.configs(exe)
     native = [c for c in cfgs if c[0] in ("native", "native-nocones")] + [("native-nopre", ["cvt:pre:all=0"]), ("native-noeq", ["cvt:pre:eqresult=0", "cvt:pre:eqbinary=0"])]
     n = 2400 if tier == "thorough" else 320
     cases = cvtcases.sample(gen, (native, acc), n, seed())
+    # every model with an SOS set (few, and the only place where the SOS part of the check is exercised)
+    for g_ in gen:
+        if g_["kind"] == "sos":
+            cases.append({"id": len(cases), "gen": g_, "cfgname": "native", "opts": []})
     for j, c in enumerate(cases):           # only native-style configurations (canonical aux values exist)
         c["cfgname"], c["opts"] = native[j % len(native)][0], list(native[j % len(native)][1])
         c["half_grid"] = (j % 3 == 0)
@@ -110,7 +111,8 @@ def run(tier):
         good = [q for q in pts if not q["viol"]]
         bad = [q for q in pts if q["viol"]]
         rnd.shuffle(good); rnd.shuffle(bad)
-        for q in good[:K // 2] + bad[:K - min(len(good), K // 2)]:
+        Kc = 4 * K if byid[cid]["gen"]["kind"] == "sos" else K
+        for q in good[:Kc // 2] + bad[:Kc - min(len(good), Kc // 2)]:
             name, mode, st, chkinfeas, fail = VARIANTS[rnd.randrange(len(VARIANTS))]
             c = byid[cid]
             D = c["D"]
